@@ -90,8 +90,11 @@ BOUNDED = {
     'C06': dict(what='the REAL Binance spot and futures L2 transformers behind the REAL with_termination_on_error + with_reconnection_events: two instruments on one '
                      'connection followed by a clean second connection; deliveries perturbed by drop / duplicate / swap / replay of an old prefix / late or early start / '
                      'snapshot id at every boundary / stray update: admitted updates form an unbroken chain and equal the reference, a break is a terminal error that ends '
-                     'the connection (nothing delivered after it, one Reconnecting notice), gap-free delivery preceded by older messages never errors',
-                bound={'quick': '~10k perturbed deliveries', 'thorough': '~180k'}),
+                     'the connection (nothing delivered after it, one Reconnecting notice), gap-free delivery preceded by older messages never errors. '
+                     'Book truth: a ground-truth exchange book is evolved by every update; the REAL OrderBookL2Manager consumes the stream and after every applied event '
+                     'its book equals the exchange book as of the reported sequence, a re-initialisation snapshot replaces the invalidated book, and updates buffered '
+                     'before the REST snapshot (real process_buffered_events; the order of ExchangeWsStream::init mirrored, pinned deductively by C06.init.*) keep it exact',
+                bound={'quick': '~10k perturbed deliveries + ~5k book histories', 'thorough': '~180k + ~60k'}),
     'C08': dict(what='the REAL MockExchange: open_order enumeration (sides x quantities x fees x balances around the requirement x instrument known/unknown x kind), and the '
                      'run() request loop under a paused clock (OpenOrder / FetchTrades / FetchAccountSnapshot / FetchBalances; latency 0 / 6 / 11 ms): trade queries before / '
                      'at / around / after every fill time return exactly the accepted fills at or after time_since in order; snapshots equal the ledger',
